@@ -11,6 +11,7 @@ CONSTANTS Principals <- TPrincipals
           MaxReq = 1000000
           FilterOnOwner = TRUE
           FixedF8 = TRUE
+          Person <- IdPerson
 CONSTRAINT Reached
 POSTCONDITION Report
 CHECK_DEADLOCK FALSE
